@@ -106,34 +106,50 @@ Definition wf_ostate (o : option pstate) : Prop := match o with Some s => wf_sta
 (* ---- escaped instructions ---- *)
 Definition escaped_supported (i : inst) : Prop := escaped_effect (inst_name i) (o_args i) <> None.
 
+Lemma apply_one_spec : forall i s, wf_state s -> escaped_supported i ->
+  exists s', apply_one s i = Ok s' /\ wf_state s' /\
+             initial s' = initial s /\ stack s' = stack s /\ same_proc_data s s'.
+Proof.
+  intros i s (W1 & W2 & W3) Hi. unfold escaped_supported, escaped_effect in Hi. unfold apply_one.
+  destruct (String.eqb (inst_name i) "InstDefCFAExpression").
+  { destruct (o_args i) as [|[z|e] [|? ?]]; try congruence.
+    eexists. split; [reflexivity|]. cbn. repeat split; assumption. }
+  destruct (String.eqb (inst_name i) "InstExpression").
+  { destruct (o_args i) as [|[r|?] [|[?|e] [|? ?]]]; try congruence.
+    eexists. split; [reflexivity|]. cbn. repeat split; try assumption. apply sorted_set. exact W1. }
+  destruct (String.eqb (inst_name i) "InstValExpression").
+  { destruct (o_args i) as [|[r|?] [|[?|e] [|? ?]]]; try congruence.
+    eexists. split; [reflexivity|]. cbn. repeat split; try assumption. apply sorted_set. exact W1. }
+  destruct (String.eqb (inst_name i) "InstNop"); [|congruence].
+  exists s. split; [reflexivity|]. repeat split; assumption.
+Qed.
+
 Lemma apply_escaped_spec : forall l s, wf_state s -> Forall escaped_supported l ->
   exists s', apply_escaped s l = Ok s' /\ wf_state s' /\
              initial s' = initial s /\ stack s' = stack s /\ same_proc_data s s'.
 Proof.
   induction l as [|i t IH]; intros s Hwf Hl.
   - exists s. cbn. split; [reflexivity|]. split; [exact Hwf|]. repeat split; reflexivity.
-  - inversion Hl as [|? ? Hi Ht]; subst. unfold escaped_supported, escaped_effect in Hi.
-    cbn [apply_escaped].
-    destruct (String.eqb (inst_name i) "InstDefCFAExpression").
-    { destruct (o_args i) as [|[z|e] [|? ?]]; try congruence.
-      destruct (IH (set_cur_cfa s (CFAExpr e))) as (s' & H1 & H2 & H3 & H4 & H5); [|assumption|].
-      { destruct Hwf as (W1 & W2 & W3). repeat split; assumption. }
-      exists s'. split; [exact H1|]. split; [exact H2|]. destruct H5 as (A & B & C). cbn in H3, H4, A, B, C.
-      unfold same_proc_data. auto. }
-    destruct (String.eqb (inst_name i) "InstExpression").
-    { destruct (o_args i) as [|[r|?] [|[?|e] [|? ?]]]; try congruence.
-      destruct (IH (set_cur_reg s r (RAtExpr e))) as (s' & H1 & H2 & H3 & H4 & H5); [|assumption|].
-      { destruct Hwf as (W1 & W2 & W3). repeat split; try assumption. apply sorted_set. exact W1. }
-      exists s'. split; [exact H1|]. split; [exact H2|]. destruct H5 as (A & B & C). cbn in H3, H4, A, B, C.
-      unfold same_proc_data. auto. }
-    destruct (String.eqb (inst_name i) "InstValExpression").
-    { destruct (o_args i) as [|[r|?] [|[?|e] [|? ?]]]; try congruence.
-      destruct (IH (set_cur_reg s r (RIsExpr e))) as (s' & H1 & H2 & H3 & H4 & H5); [|assumption|].
-      { destruct Hwf as (W1 & W2 & W3). repeat split; try assumption. apply sorted_set. exact W1. }
-      exists s'. split; [exact H1|]. split; [exact H2|]. destruct H5 as (A & B & C). cbn in H3, H4, A, B, C.
-      unfold same_proc_data. auto. }
-    destruct (String.eqb (inst_name i) "InstNop"); [|congruence].
-    apply IH; assumption.
+  - inversion Hl as [|? ? Hi Ht]; subst. cbn [apply_escaped].
+    destruct (apply_one_spec i s Hwf Hi) as (s1 & E1 & W1 & I1 & S1 & (A1 & B1 & C1)).
+    rewrite E1. cbn [bind].
+    destruct (IH s1 W1 Ht) as (s' & E2 & W2 & I2 & S2 & (A2 & B2 & C2)).
+    exists s'. split; [exact E2|]. split; [exact W2|]. unfold same_proc_data. repeat split; congruence.
+Qed.
+
+(* the lazy loop of the code computes what applying the fully parsed list computes *)
+Lemma escape_loop_parsed : forall fuel s l off total big ps insts,
+  parse_loop fuel l off total big ps = Ok insts ->
+  escape_loop fuel s l off total big ps = apply_escaped s insts.
+Proof.
+  induction fuel as [|f IH]; intros s l off total big ps insts H; cbn [parse_loop escape_loop] in *.
+  - destruct (off <? total); [discriminate|]. injection H as <-. reflexivity.
+  - destruct (off <? total); [|injection H as <-; reflexivity].
+    destruct (decode_inst l big ps) as [[[i n] l1]|]; cbn [bind] in *; [|discriminate].
+    destruct (parse_loop f l1 (off + n) total big ps) as [is|] eqn:Hp; cbn [bind] in H; [|discriminate].
+    injection H as <-. cbn [apply_escaped].
+    destruct (apply_one s i) as [s'|]; cbn [bind]; [|reflexivity].
+    apply IH. exact Hp.
 Qed.
 
 Section WithABI.
@@ -243,7 +259,8 @@ Section WithABI.
                initial s' = initial s /\ stack s' = stack s /\ same_proc_data s s'.
   Proof.
     intros s args sym Hwf (Hb & insts & Hp & Hs). unfold step. cbn [String.eqb Ascii.eqb Bool.eqb].
-    rewrite Hb. cbn [negb]. rewrite Hp. cbn [bind].
+    rewrite Hb. cbn [negb]. unfold run_escape. unfold parse_cfi_instructions in Hp.
+    rewrite (escape_loop_parsed _ s _ _ _ _ _ _ Hp).
     destruct (apply_escaped_spec insts s Hwf Hs) as (s' & H1 & H2 & H3 & H4 & H5).
     rewrite H1. cbn [bind]. exists s'. auto.
   Qed.
@@ -255,21 +272,29 @@ Section WithABI.
     injection H as <- <-; cbn; repeat split; try assumption;
     try (apply sorted_set; assumption); try (apply sorted_del; assumption).
 
-  Lemma apply_escaped_wf : forall insts s s', apply_escaped s insts = Ok s' -> wf_state s -> wf_state s'.
+  Lemma apply_one_wf : forall i s s', apply_one s i = Ok s' -> wf_state s -> wf_state s'.
   Proof.
-    induction insts as [|i t IH]; intros s s' Ha (W1 & W2 & W3); cbn [apply_escaped] in Ha.
-    - injection Ha as <-. repeat split; assumption.
-    - destruct (String.eqb (inst_name i) "InstDefCFAExpression").
-      { destruct (o_args i) as [|[z|e] [|? ?]]; try discriminate.
-        eapply IH; [exact Ha|]. repeat split; assumption. }
-      destruct (String.eqb (inst_name i) "InstExpression").
-      { destruct (o_args i) as [|[r|?] [|[?|e] [|? ?]]]; try discriminate.
-        eapply IH; [exact Ha|]. repeat split; try assumption. apply sorted_set; assumption. }
-      destruct (String.eqb (inst_name i) "InstValExpression").
-      { destruct (o_args i) as [|[r|?] [|[?|e] [|? ?]]]; try discriminate.
-        eapply IH; [exact Ha|]. repeat split; try assumption. apply sorted_set; assumption. }
-      destruct (String.eqb (inst_name i) "InstNop"); [|discriminate].
-      eapply IH; [exact Ha|]. repeat split; assumption.
+    intros i s s' Ha (W1 & W2 & W3). unfold apply_one in Ha.
+    destruct (String.eqb (inst_name i) "InstDefCFAExpression").
+    { destruct (o_args i) as [|[z|e] [|? ?]]; try discriminate. injection Ha as <-. repeat split; assumption. }
+    destruct (String.eqb (inst_name i) "InstExpression").
+    { destruct (o_args i) as [|[r|?] [|[?|e] [|? ?]]]; try discriminate. injection Ha as <-.
+      repeat split; try assumption. apply sorted_set; assumption. }
+    destruct (String.eqb (inst_name i) "InstValExpression").
+    { destruct (o_args i) as [|[r|?] [|[?|e] [|? ?]]]; try discriminate. injection Ha as <-.
+      repeat split; try assumption. apply sorted_set; assumption. }
+    destruct (String.eqb (inst_name i) "InstNop"); [|discriminate].
+    injection Ha as <-. repeat split; assumption.
+  Qed.
+
+  Lemma escape_loop_wf : forall fuel s l off total s', escape_loop fuel s l off total big ptr_size = Ok s' -> wf_state s -> wf_state s'.
+  Proof.
+    induction fuel as [|f IH]; intros s l off total s' H Hwf; cbn [escape_loop] in H.
+    - destruct (off <? total); [discriminate|]. injection H as <-. exact Hwf.
+    - destruct (off <? total); [|injection H as <-; exact Hwf].
+      destruct (decode_inst l big ptr_size) as [[[i n] l1]|]; cbn [bind] in H; [|discriminate].
+      destruct (apply_one s i) as [s1|] eqn:Ha; cbn [bind] in H; [|discriminate].
+      eapply IH; [exact H|]. eapply apply_one_wf; eassumption.
   Qed.
 
   Lemma step_wf : forall st d st' b, wf_ostate st -> step st d = Ok (st', b) -> wf_ostate st'.
@@ -313,9 +338,8 @@ Section WithABI.
       cbn; repeat split; assumption. }
     destruct (String.eqb name ".cfi_escape"); [|discriminate].
     destruct (negb _); [discriminate|].
-    destruct (parse_cfi_instructions args big ptr_size) as [insts|]; cbn [bind] in Hs; [|discriminate].
-    destruct (apply_escaped s insts) as [s'|] eqn:Ha; cbn [bind] in Hs; [|discriminate].
-    injection Hs as <- <-. eapply apply_escaped_wf; [exact Ha|]. repeat split; assumption.
+    destruct (run_escape s args big ptr_size) as [s'|] eqn:Ha; cbn [bind] in Hs; [|discriminate].
+    injection Hs as <- <-. unfold run_escape in Ha. eapply escape_loop_wf; [exact Ha|]. repeat split; assumption.
   Qed.
 
   (* ---- error discipline on the supported directive set ---- *)
